@@ -6,6 +6,7 @@
 use vstd::prelude::*;
 verus! {
 //@ include prelude/base.rs
+//@ autoens len -> u64 => metadata_len(&$x)
 
 pub mod flexi_error {
     use super::*;
